@@ -231,11 +231,13 @@ ParentFlagsPre(F) == HUGE \notin F
 -----------------------------------------------------------------------------
 (* the tables of the hierarchy and clean-up (C10) *)
 
-L4Slots(m) == { i \in SlotsOf(m, root) : i # rix /\ IsTable(Lookup(m, root, i)) }
+L4SlotsR(m, rt, rx) == { i \in SlotsOf(m, rt) : i # rx /\ IsTable(Lookup(m, rt, i)) }
+L4Slots(m) == L4SlotsR(m, root, rix)
 
 (* [f: frame, lvl, base: first virtual address covered, pf/pi: the slot that links it] *)
-Tables3(m) == { [f |-> Lookup(m, root, i).addr, lvl |-> 3, pf |-> root, pi |-> i,
-                 base |-> FromIndices(2, i, 0, 0, 0)] : i \in L4Slots(m) }
+Tables3R(m, rt, rx) == { [f |-> Lookup(m, rt, i).addr, lvl |-> 3, pf |-> rt, pi |-> i,
+                          base |-> FromIndices(2, i, 0, 0, 0)] : i \in L4SlotsR(m, rt, rx) }
+Tables3(m) == Tables3R(m, root, rix)
 SubTables(m, T, l) ==
     UNION { { [f |-> Lookup(m, t.f, j).addr, lvl |-> l, pf |-> t.f, pi |-> j,
                base |-> OrW(t.base, Shl(W(j), OB + l * IB))] :
@@ -273,6 +275,27 @@ CleanOKT(m, T, D, a, b) ==
        /\ \A t \in Tables(m2) : Inside(t, a, b) => SlotsOf(m2, t.f) # {}   \* none left behind
        /\ (lastClean = <<a, b>> => D = {})                               \* repeating frees nothing
 CleanOK(m, D, a, b) == CleanOKT(m, Tables(m), D, a, b)
+
+(* the mappings a hierarchy rooted at rt contains (used to adopt an injected state) *)
+LeafAt(e, l) == Present(e) /\ (l = 1 \/ HUGE \in e.flags)
+LeavesR(m, rt, rx) ==
+    LET T3 == Tables3R(m, rt, rx)
+        T2 == SubTables(m, T3, 2)
+        T1 == SubTables(m, T2, 1)
+        lv(T, l) == UNION { { [s |-> l - 1, page |-> OrW(t.base, Shl(W(j), OB + (l - 1) * IB)),
+                               e |-> Lookup(m, t.f, j)] :
+                              j \in { j \in SlotsOf(m, t.f) : LeafAt(Lookup(m, t.f, j), l) } } : t \in T }
+    IN lv(T3, 3) \cup lv(T2, 2) \cup lv(T1, 1)
+DeriveAmapR(m, rt, rx) ==
+    LET L == LeavesR(m, rt, rx)
+        K == { << x.s, x.page >> : x \in L }
+    IN [ k \in K |-> LET x == CHOOSE x \in L : << x.s, x.page >> = k
+                     IN [frame |-> AlignDownV(x.e.addr, SizeBits(x.s)), flags |-> x.e.flags \ HugeBit(x.s)] ]
+TableFramesOfR(m, rt, rx) ==
+    LET T3 == Tables3R(m, rt, rx)
+        T2 == SubTables(m, T3, 2)
+        T1 == SubTables(m, T2, 1)
+    IN { t.f : t \in T3 \cup T2 \cup T1 } \cup {rt}
 
 FullRangeA == ZeroW
 FullRangeB == MaskW(OB, WB)
